@@ -1,4 +1,4 @@
 SPECIFICATION Spec
-CONSTANTS MaxLen = 2  MaxV = 3  Wts = {1, 2}  CoSort = FALSE  ZerosFirst = FALSE  PosRule = "mid"  TieByWeight = TRUE  SharedPos = FALSE  StaleDelta = FALSE  StalePositions = FALSE  HistLen = 2
+CONSTANTS MaxLen = 2  MaxV = 3  Wts = {1, 2}  CoSort = FALSE  ZerosFirst = FALSE  PosRule = "mid"  TieByWeight = TRUE  SharedPos = FALSE  StaleDelta = FALSE  StalePositions = FALSE  HistLen = 1
 CHECK_DEADLOCK FALSE
 INVARIANT OrderInvariant
